@@ -12,6 +12,7 @@ use std::io::{BufRead, Write};
 fn main() {
     // panics are results, not noise
     std::panic::set_hook(Box::new(|_| {}));
+    run::start_watchdog();
     let args: Vec<String> = std::env::args().collect();
     match args.get(1).map(String::as_str) {
         // run case lines from stdin against the implementation
